@@ -158,6 +158,7 @@ func runC11(r *core.Run) {
 		}
 	}
 	validateTraces(r, "Trace_Bmff", "Trace_Bmff.cfg", "isobmff.Reader", ops, obs, ts.lines, ts.owner)
+	bindingSelfTest(r, "Trace_Bmff", "Trace_Bmff.cfg", &ts, "cb>", 1, 3) // a hand-off with 3 bytes more than the box has left
 	r.Extra["generated_trees"] = ngen
 	r.Extra["open_traces_of_samples_and_malformed_files"] = len(ops) - ngen
 	r.Assumptions = append(r.Assumptions,
